@@ -24,7 +24,7 @@ func C04_Jobs() []string {
 	for _, k := range []string{"int", "str", "bool", "slice", "ptr", "structfield"} {
 		out = append(out, "ws/"+k)
 	}
-	out = append(out, "default-items/parse", "default-items/validate", "struct-input")
+	out = append(out, "default-items/parse", "default-items/validate", "struct-input", "absent-items", "empty-composites")
 	for _, k := range []string{"int", "str", "bool", "float", "time", "slice", "ptr"} {
 		for _, m := range []string{"parse", "validate"} {
 			for d := 0; d < 4; d++ {
@@ -536,6 +536,79 @@ func c04Extra(kind, mode string) {
 		}
 		v.Assert(len(errs["[0]"]) == bad(d0) && len(errs["[1]"]) == bad(d1), "C04:default-value-not-tested")
 		v.Assert(len(d) == 2, "C04:default-not-stored")
+	case "absent-items":
+		// an absent item (nil, blank string) of a present list meets its item schema like any absent
+		// value: Default > required issue > skip; at every position, whatever its neighbours are
+		x := v.Int("x")
+		dv := v.Int("dv")
+		pos := v.Choice("pos", 3)
+		var absent any
+		if v.Choice("blank", 2) == 1 {
+			absent = " "
+		}
+		in := []any{x, x, x}
+		in[pos] = absent
+		key := []string{"[0]", "[1]", "[2]"}[pos]
+		switch v.Choice("item", 5) {
+		case 0:
+			var d []int
+			errs := z.Slice(z.Int().Required()).Parse(in, &d)
+			v.Cover("required-issue")
+			v.Assert(len(errs) == 2 && len(errs[key]) == 1 && errs[key][0].Code == "required", "C04:required-absent-not-reported")
+			v.Assert(len(d) == 3, "C04:absent-item-dropped")
+		case 1:
+			var d []int
+			errs := z.Slice(z.Int().Default(dv)).Parse(in, &d)
+			v.Cover("default-applied")
+			v.Assert(errs == nil && len(d) == 3 && d[pos] == dv && d[(pos+1)%3] == x, "C04:default-not-stored")
+		case 2:
+			var d []*int
+			errs := z.Slice(z.Ptr(z.Int()).NotNil()).Parse(in, &d)
+			v.Cover("required-issue")
+			v.Assert(len(errs) == 2 && len(errs[key]) == 1 && errs[key][0].Code == "not_nil", "C04:required-absent-not-reported")
+			v.Assert(len(d) == 3 && d[pos] == nil && d[(pos+1)%3] != nil, "C04:absent-item-dropped")
+		case 3:
+			var d []struct{ X int }
+			rec := map[string]any{"x": x}
+			lin := []any{rec, rec, rec}
+			lin[pos] = nil
+			errs := z.Slice(z.Struct(z.Schema{"x": z.Int().Required()})).Parse(lin, &d)
+			v.Cover("required-issue")
+			v.Assert(len(errs) == 2 && len(errs[key+".x"]) == 1 && errs[key+".x"][0].Code == "required", "C04:required-absent-not-reported")
+		default:
+			var d []int
+			called := 0
+			errs := z.Slice(z.Int().TestFunc(func(val any, c z.Ctx) bool { called++; return false })).Parse(in, &d)
+			v.Cover("skipped")
+			v.Assert(len(errs[key]) == 0 && called == 2 && len(d) == 3 && d[pos] == 0, "C04:optional-absent-tested")
+		}
+	case "empty-composites":
+		// an empty record / an empty list is a present value (only nil and blank strings are absent
+		// in Parse): behind a pointer the inner schema runs and the pointer is allocated
+		type In struct{ Name string }
+		var d struct {
+			Inner *In
+			Tags  *[]string
+			Plain []string
+		}
+		s := z.Struct(z.Schema{
+			"inner": z.Ptr(z.Struct(z.Schema{"name": z.String().Required()})).NotNil(),
+			"tags":  z.Ptr(z.Slice(z.String()).Min(1)).NotNil(),
+			"plain": z.Slice(z.String()).Required(),
+		})
+		var empty any = []any{}
+		if v.Choice("typed", 2) == 1 {
+			empty = []string{}
+		}
+		errs := s.Parse(map[string]any{"inner": map[string]any{}, "tags": empty, "plain": empty}, &d)
+		v.Cover("present")
+		v.Assert(len(errs["inner"]) == 0 && len(errs["inner.name"]) == 1 && errs["inner.name"][0].Code == "required", "C04:present-value-reported-absent")
+		v.Assert(len(errs["tags"]) == 1 && errs["tags"][0].Code == "min", "C04:present-value-reported-absent")
+		v.Assert(len(errs["plain"]) == 0, "C04:present-value-reported-absent")
+		v.Assert(d.Inner != nil && d.Tags != nil, "C04:pointer-allocation-vs-absence")
+		var top *[]string
+		e2 := z.Ptr(z.Slice(z.String())).NotNil().Parse(empty, &top)
+		v.Assert(e2 == nil && top != nil && len(*top) == 0, "C04:present-value-reported-absent")
 	case "struct-input":
 		// present-but-falsy values of a Go struct used as input are present in Parse
 		type In struct {
@@ -573,7 +646,7 @@ func c04Extra(kind, mode string) {
 
 func C04_Run(job string) {
 	a, b, c, d := split3(job)
-	if a == "default-items" || a == "struct-input" {
+	if a == "default-items" || a == "struct-input" || a == "absent-items" || a == "empty-composites" {
 		c04Extra(a, b)
 		v.Cover("ws:blank")
 		return
